@@ -1,6 +1,6 @@
 SPECIFICATION Spec
 CONSTANTS
-  Scheme = "afcuni"
+  Schemes = {"afcuni"}
   MaxTamper = 2
   HashModel = "tuple"
   PLens = {0}
